@@ -18,7 +18,7 @@ META = {
     'level_text': 'TLC enumerates every sequence of leader reports (from in-sync followers, non-ISR replicas, the '
                   'leader itself and a non-replica id; repeated; current and stale (leader, epoch) pairs), timer '
                   'expiries, ISR shrink/expand requests with current or stale pairs, controller leadership loss, '
-                  'rebuilds of the partition object from its persisted form (pause + resume), requests for which no '
+                  'rebuilds of the partition object from its persisted form (pause + resume; snapshot of the controller FSM + restore on the running server), requests for which no '
                   'Raft entry can be replicated (failed election attempts) and stream removal within the bounds and proves the step predicates P_* (election only with more than '
                   'half of the in-sync followers as witnesses in the current window, new leader in the ISR and not the '
                   'reported one, epochs strictly increasing, one leader per epoch, stale requests refused without '
@@ -32,7 +32,8 @@ META = {
                   'atomic except that ReportLeader, ShrinkISR and ExpandISR are each split at the gate hook between their '
                   'pair check and their effect (witness registration + election / Raft proposal), with up to 2-3 requests '
                   'parked in between; other overlaps are not scheduled. The expiry timer is real (120 ms); the driver proves by the clock that no step other than '
-                  'Expire can have seen a spontaneous expiry, else the behaviour is re-executed. Bounds: quick 8 steps '
+                  'Expire can have seen a spontaneous expiry, and an Expire step ends only in a situation established on the real '
+                  'timer (entry gone / timer not pending / still pending after two periods), else the behaviour is re-executed. Bounds: quick 8 steps '
                   'exhaustive model (6 with overlapping reports) / 3 steps replayed transition cover + every sequence '
                   'of 3 effective steps / 10 steps simulated; thorough 12 / 4 / 14.',
     'design_ref': 'DESIGN.md section 6/C07',
@@ -193,7 +194,9 @@ def label_step(lab):
         return {'a': 'Shrink', 'r': args[0], 'ps': args[1], 'ok': args[2]}
     if name == 'MCExpand':
         return {'a': 'Expand', 'r': args[0], 'ps': args[1], 'ok': args[2]}
-    if name in ('MCExpire', 'MCLose', 'MCRemove', 'MCRebuild'):
+    if name == 'MCRebuild':
+        return {'a': 'Rebuild', 'how': args[0]}
+    if name in ('MCExpire', 'MCLose', 'MCRemove'):
         return {'a': name[2:]}
     raise core.Inconclusive('unknown action label %r' % lab)
 
